@@ -798,8 +798,13 @@ func c10Blocked(r *fw.R, d c10Desc) {
 		r.Violate("C10/blocked-call-returned-nil/"+d.Blocked, what+": the call returned nil although the peer never supplied what it waited for", "")
 		return
 	}
-	if lag > 2*time.Second {
-		if over := time.Duration(canaryMax.Load()); over > c09CanaryLimit && 3*over > lag-2*time.Second {
+	// ("promptly": the library's own waits are 5 s timers, so a call that is released by one of them instead of by its
+	// context comes back 5 s or more late. The bound was 2 s until a run on a machine oversubscribed about eight
+	// times - this check took 41 s instead of 5 s - measured 3.1 s for one case with the canary itself hardly
+	// delayed: a load artefact of the harness's wall-clock bound, not the library's doing.)
+	const lateBound = 4 * time.Second
+	if lag > lateBound {
+		if over := time.Duration(canaryMax.Load()); over > c09CanaryLimit && 3*over > lag-lateBound {
 			r.Inconclusivef("%s: returned after %v, canary overslept %v", what, lag, over)
 		} else {
 			r.Violate("C10/blocked-call-returned-late/"+d.Blocked+"/"+d.Pre, fmt.Sprintf("%s: the call returned %v after its context ended", what, lag.Round(time.Millisecond)), "")
